@@ -6,6 +6,8 @@ CHECKS = {
             "thorough": {"runs": 60000, "chunk": 16}},
     "C14": {"module": "sim.c14", "quick": {"runs": 4000, "chunk": 32},
             "thorough": {"runs": 400000, "chunk": 64}},
+    "C17": {"module": "sim.c17", "quick": {"runs": 6000, "chunk": 32},
+            "thorough": {"runs": 400000, "chunk": 64}},
     "C16": {"module": "sim.c16", "quick": {"runs": 2400, "chunk": 8},
             "thorough": {"runs": 80000, "chunk": 8}},
 }
